@@ -44,10 +44,9 @@ use rs_matter::crypto::{
     test_only_crypto, CanonAeadKey, CanonPkcSecretKey, Crypto, SecretKey, SigningSecretKey,
 };
 use rs_matter::dm::clusters::net_comm::{Networks, NetworkType, NetworksAccess, WirelessCreds};
-use rs_matter::dm::devices::test::{TEST_DEV_ATT, TEST_DEV_COMM};
 use rs_matter::dm::endpoints;
 use rs_matter::dm::networks::wireless::{NoopWirelessNetCtl, WifiNetworks};
-use rs_matter::dm::{DataModel, Node};
+use rs_matter::dm::Node;
 use rs_matter::error::{Error, ErrorCode};
 use rs_matter::fabric::{Fabric, FabricPersist, Fabrics};
 use rs_matter::im::client::ImClient;
@@ -61,6 +60,7 @@ use rs_matter::transport::exchange::{Exchange, MatterBuffers};
 use rs_matter::transport::network::NoNetwork;
 use rs_matter::transport::session::{ReservedSession, SessionMode};
 use rs_matter::utils::select::Coalesce;
+use rs_matter::utils::storage::WriteBuf;
 use rs_matter::{root_endpoint, Matter};
 
 use rsm_harness::e2e::{self, KvOp, MemKv, Net};
@@ -549,6 +549,18 @@ fn net_class(code: u64) -> String {
     }
 }
 
+/// TLV elements written by `f`, as bytes (the fields of a command's request struct)
+fn tlv(f: impl FnOnce(&mut WriteBuf<'_>) -> Result<(), Error>) -> Vec<u8> {
+    let mut buf = vec![0u8; 2048];
+    let n = {
+        let mut wb = WriteBuf::new(&mut buf);
+        f(&mut wb).unwrap();
+        wb.get_tail()
+    };
+    buf.truncate(n);
+    buf
+}
+
 enum Reply {
     /// response command data: value of field 0 (status enum) and, for CSR, the NOCSR elements
     Data(u64, Option<Vec<u8>>),
@@ -563,7 +575,7 @@ async fn invoke(
     cluster: u32,
     cmd: u32,
     timed: bool,
-    build: &dyn Fn(&mut dyn TLVWrite<Position = usize>) -> Result<(), Error>,
+    payload: &[u8],
     want_octets: bool,
 ) -> Reply {
     let crypto = test_only_crypto();
@@ -578,7 +590,7 @@ async fn invoke(
                 .path(0, cluster, cmd)?
                 .data(|w| {
                     w.start_struct(&TLVTag::Context(1))?;
-                    build(w)?;
+                    w.write_raw_data(payload.iter().copied())?;
                     w.end_container()
                 })?
                 .end()?
@@ -625,7 +637,7 @@ async fn write_acl(ctl: &Matter<'_>, sid: u32, k: u64) -> String {
         Ok(e) => e,
         Err(e) => return format!("initiate:{:?}", e.code()),
     };
-    let entry = |w: &mut dyn TLVWrite<Position = usize>, privilege: u8, subject: u64| -> Result<(), Error> {
+    let entry = |w: &mut WriteBuf<'_>, privilege: u8, subject: u64| -> Result<(), Error> {
         w.start_struct(&TLVTag::Anonymous)?;
         w.u8(&TLVTag::Context(1), privilege)?;
         w.u8(&TLVTag::Context(2), 2)?; // CASE
@@ -635,6 +647,10 @@ async fn write_acl(ctl: &Matter<'_>, sid: u32, k: u64) -> String {
         w.null(&TLVTag::Context(4))?;
         w.end_container()
     };
+    let entries = tlv(|w| {
+        entry(w, 5, ADMIN)?;
+        entry(w, 1, k)
+    });
     let res = exchange
         .write_with(None, |b| {
             b.write_requests()?
@@ -642,8 +658,7 @@ async fn write_acl(ctl: &Matter<'_>, sid: u32, k: u64) -> String {
                 .path(0, CL_ACL, 0)?
                 .data(|w| {
                     w.start_array(&TLVTag::Context(2))?;
-                    entry(w, 5, ADMIN)?;
-                    entry(w, 1, k)?;
+                    w.write_raw_data(entries.iter().copied())?;
                     w.end_container()
                 })?
                 .end()?
@@ -694,7 +709,7 @@ fn run_incarnation(
     let fkv = FaultKv::new(kv.clone());
     let dev = e2e::new_matter(det, false);
     let ctl = e2e::new_matter(det, false);
-    let buffers = MatterBuffers::new();
+    let buffers: MatterBuffers = MatterBuffers::new();
     let st = DevState::new(Nets::new());
     let crypto = test_only_crypto();
     let access = dev.kv(fkv.clone());
@@ -732,6 +747,13 @@ fn run_incarnation(
 
         let flow = async {
             let mut i = start;
+            if first_boot.is_none() {
+                // the state right after the boot completes the observation of the restart step
+                let snap = snapshot(base, &cm.borrow(), &dev, &st, &kv);
+                if let Some(last) = outs.borrow_mut().last_mut() {
+                    last.push_str(&snap);
+                }
+            }
             while i < ops.len() {
                 let op = ops[i].clone();
                 i += 1;
@@ -767,10 +789,10 @@ fn run_incarnation(
                     match &op {
                         Op::Arm(_, t, bc) => {
                             let (t, bc) = (*t, *bc);
-                            let r = invoke(&ctl, sid, CL_GENCOMM, 0, false, &|w| {
+                            let r = invoke(&ctl, sid, CL_GENCOMM, 0, false, &tlv(|w| {
                                 w.u16(&TLVTag::Context(0), t)?;
                                 w.u64(&TLVTag::Context(1), bc)
-                            }, false)
+                            }), false)
                             .await;
                             match r {
                                 Reply::Data(c, _) => gencomm_class(c),
@@ -781,10 +803,10 @@ fn run_incarnation(
                         Op::Csr(_, upd) => {
                             let upd = *upd;
                             let nonce = [0x5au8; 32];
-                            let r = invoke(&ctl, sid, CL_NOC, 4, false, &|w| {
+                            let r = invoke(&ctl, sid, CL_NOC, 4, false, &tlv(|w| {
                                 w.str(&TLVTag::Context(0), &nonce)?;
                                 w.bool(&TLVTag::Context(1), upd)
-                            }, true)
+                            }), true)
                             .await;
                             match r {
                                 Reply::Data(_, Some(nocsr)) => {
@@ -795,7 +817,7 @@ fn run_incarnation(
                                     match csr {
                                         Ok(csr) => {
                                             let pk = rs_matter::cert::x509::csr::CsrRef::new(&csr)
-                                                .and_then(|c| c.pubkey().map(|p| p.to_vec()))
+                                                .and_then(|c| c.pubkey().map(|p| p.access().to_vec()))
                                                 .unwrap_or_default();
                                             let mut c = cm.borrow_mut();
                                             c.csrs.push(csr);
@@ -813,7 +835,7 @@ fn run_incarnation(
                         Op::Root(_, r) => {
                             let r = *r;
                             let cert = &base.roots[r].cert;
-                            let rep = invoke(&ctl, sid, CL_NOC, 11, false, &|w| w.str(&TLVTag::Context(0), cert), false).await;
+                            let rep = invoke(&ctl, sid, CL_NOC, 11, false, &tlv(|w| w.str(&TLVTag::Context(0), cert)), false).await;
                             match rep {
                                 Reply::Status(IMStatusCode::Success) => {
                                     cm.borrow_mut().last_root = r;
@@ -852,15 +874,15 @@ fn run_incarnation(
                             let mut ng = NocGenerator::create(base.roots[r].privkey.reference(), &base.roots[r].cert, &[], &mut noc_buf).unwrap();
                             let noc = ng.generate(&crypto, &csr, nid, &[], VALID_FOREVER).unwrap().to_vec();
                             let rep = if is_add {
-                                invoke(&ctl, sid, CL_NOC, 6, false, &|w| {
+                                invoke(&ctl, sid, CL_NOC, 6, false, &tlv(|w| {
                                     w.str(&TLVTag::Context(0), &noc)?;
                                     w.str(&TLVTag::Context(2), &IPK)?;
                                     w.u64(&TLVTag::Context(3), ADMIN)?;
                                     w.u16(&TLVTag::Context(4), VENDOR)
-                                }, false)
+                                }), false)
                                 .await
                             } else {
-                                invoke(&ctl, sid, CL_NOC, 7, false, &|w| w.str(&TLVTag::Context(0), &noc), false).await
+                                invoke(&ctl, sid, CL_NOC, 7, false, &tlv(|w| w.str(&TLVTag::Context(0), &noc)), false).await
                             };
                             match rep {
                                 Reply::Data(c, _) => noc_class(c),
@@ -874,14 +896,14 @@ fn run_incarnation(
                         }
                         Op::NetAdd(_, k, bc) => {
                             let (id, bc) = (ssid(*k), *bc);
-                            let rep = invoke(&ctl, sid, CL_NETCOMM, 2, false, &|w| {
+                            let rep = invoke(&ctl, sid, CL_NETCOMM, 2, false, &tlv(|w| {
                                 w.str(&TLVTag::Context(0), &id)?;
                                 w.str(&TLVTag::Context(1), b"password")?;
                                 if let Some(bc) = bc {
                                     w.u64(&TLVTag::Context(2), bc)?;
                                 }
                                 Ok(())
-                            }, false)
+                            }), false)
                             .await;
                             match rep {
                                 Reply::Data(c, _) => net_class(c),
@@ -891,7 +913,7 @@ fn run_incarnation(
                         }
                         Op::NetDel(_, k) => {
                             let id = ssid(*k);
-                            let rep = invoke(&ctl, sid, CL_NETCOMM, 4, false, &|w| w.str(&TLVTag::Context(0), &id), false).await;
+                            let rep = invoke(&ctl, sid, CL_NETCOMM, 4, false, &tlv(|w| w.str(&TLVTag::Context(0), &id)), false).await;
                             match rep {
                                 Reply::Data(c, _) => net_class(c),
                                 Reply::Status(s) => im_class(s),
@@ -904,7 +926,7 @@ fn run_incarnation(
                                 2 => Some(1),
                                 _ => None,
                             });
-                            let rep = invoke(&ctl, sid, CL_GENCOMM, 4, false, &|_| Ok(()), false).await;
+                            let rep = invoke(&ctl, sid, CL_GENCOMM, 4, false, &[], false).await;
                             match rep {
                                 Reply::Data(c, _) => gencomm_class(c),
                                 Reply::Status(s) => im_class(s),
@@ -912,7 +934,7 @@ fn run_incarnation(
                             }
                         }
                         Op::CompleteCrash(..) => {
-                            let rep = invoke(&ctl, sid, CL_GENCOMM, 4, false, &|_| Ok(()), false).await;
+                            let rep = invoke(&ctl, sid, CL_GENCOMM, 4, false, &[], false).await;
                             match rep {
                                 Reply::Data(c, _) => gencomm_class(c),
                                 Reply::Status(s) => im_class(s),
@@ -920,14 +942,14 @@ fn run_incarnation(
                             }
                         }
                         Op::Revoke(_) => {
-                            let rep = invoke(&ctl, sid, CL_ADMCOMM, 2, true, &|_| Ok(()), false).await;
+                            let rep = invoke(&ctl, sid, CL_ADMCOMM, 2, true, &[], false).await;
                             match rep {
                                 Reply::Data(..) => "data?".into(),
                                 Reply::Status(s) => im_class(s),
                                 Reply::Err(e) => format!("err:{}", e),
                             }
                         }
-                        _ => unreachable!(),
+                        _ => String::new(),
                     }
                 };
                 let status = match &op {
@@ -949,7 +971,7 @@ fn run_incarnation(
                         "ok".to_string()
                     }
                     Op::Restart => {
-                        outs.borrow_mut().push("ok@boot".to_string());
+                        outs.borrow_mut().push("ok@".to_string());
                         return Next::Boot(i, kv.blobs());
                     }
                     Op::CompleteCrash(_, j) if !gone => {
@@ -957,11 +979,11 @@ fn run_incarnation(
                         let log = scoped_log(&kv);
                         let j = (*j).min(log.len());
                         let after = MemKv::replay_prefix(&before, &log, j);
-                        outs.borrow_mut().push(format!("cut{}of{}@boot", j, log.len()));
+                        outs.borrow_mut().push(format!("cut{}@", j));
                         return Next::Boot(i, after);
                     }
                     Op::CompleteCrash(..) => {
-                        outs.borrow_mut().push("gone@boot".to_string());
+                        outs.borrow_mut().push("gone@".to_string());
                         return Next::Boot(i, kv.blobs());
                     }
                     _ => status,
@@ -1071,7 +1093,9 @@ fn main() {
             let handle = std::thread::Builder::new()
                 .stack_size(256 * 1024 * 1024)
                 .spawn(move || {
-                    rsm_harness::silence_panics();
+                    if std::env::var("C08_DEBUG").is_err() {
+                        rsm_harness::silence_panics();
+                    }
                     let base = make_base();
                     let mut out = String::new();
                     for line in text.lines() {
